@@ -303,3 +303,72 @@ func domainPDUs(sp *refcodec.Spec, msgs []*refcodec.Msg, r *prng.Rand, thorough 
 	}
 	return out
 }
+
+// bigPDUs renders def with one 16-bit-length slot filled so that the slot length
+// or the whole PDU size walks across 2^16: slot lengths 65535-w..65535 (alone and
+// among all other optional elements, whose octets then push the remaining-octet
+// counts across 65536), and total sizes 65533..65542. Arithmetic done in a
+// 16-bit type anywhere on the path wraps inside these windows.
+func bigPDUs(def *refcodec.Msg, r *prng.Rand, thorough bool) []domainPDU {
+	var out []domainPDU
+	w := 16
+	if thorough {
+		w = 48
+	}
+	for si := range def.Slots {
+		sl := &def.Slots[si]
+		if si < def.HeaderLen() || sl.LenSize() != 2 || sl.Max != 65535 {
+			continue
+		}
+		for L := 65535 - w; L <= 65535; L++ {
+			for ctx := 0; ctx < 2; ctx++ {
+				if ctx == 1 && len(def.OptSlots()) < 2 {
+					continue
+				}
+				b, cn := withSlot(def, r, si, r.Pattern(L%5, L), ctx)
+				out = append(out, domainPDU{def, b, "slot-length-near-65535", cn})
+			}
+		}
+		base, _ := withSlot(def, r, si, nil, 0)
+		for N := 65533; N <= 65542; N++ {
+			L := N - len(base)
+			if L < sl.Min || L > sl.Max {
+				continue
+			}
+			b, cn := withSlot(def, r, si, r.Pattern(N%5, L), 0)
+			if len(b) == N {
+				out = append(out, domainPDU{def, b, "pdu-size-near-65536", cn})
+			}
+		}
+	}
+	return out
+}
+
+// bigUnits makes one unit per message definition that has a 16-bit-length slot.
+func bigUnits(msgs []*refcodec.Msg, tier string, weight int, fn func(c *core.Ctx, d *domainPDU, i int)) []core.Unit {
+	var us []core.Unit
+	for _, def := range msgs {
+		def := def
+		has := false
+		for si := range def.Slots {
+			if si >= def.HeaderLen() && def.Slots[si].LenSize() == 2 && def.Slots[si].Max == 65535 {
+				has = true
+			}
+		}
+		if !has {
+			continue
+		}
+		us = append(us, core.Unit{Name: "big-" + def.Name, Weight: weight, Run: func(c *core.Ctx) {
+			ds := bigPDUs(def, c.R, tier == "thorough")
+			for i := range ds {
+				fn(c, &ds[i], i)
+				c.Cover("domain_kind", ds[i].Kind)
+				if i&7 == 0 {
+					c.J.Tick()
+				}
+			}
+			c.Count("big_pdus", int64(len(ds)))
+		}})
+	}
+	return us
+}
